@@ -134,6 +134,10 @@ def _cases(tier, seed, level):
                             k = si * 3 + ci * 5 + ii * 7 + di * 11 + georef * 13 + masks * 17 + seed
                             base = {"kind": "run", "sk": sk, "conf": cs, "inv": inv, "disp": disp, "georef": georef,
                                     "masks": masks, "seed": seed}
+                            if georef:
+                                # an EPSG entry, or a CRS that merely resembles one (UTM 31 on GRS80 without datum:
+                                # the products must carry the input's CRS, not the closest catalogue entry)
+                                base["crs"] = CRS_MENU[k % len(CRS_MENU)]
                             if tier == "quick":
                                 yield dict(base, mc=list(MATCHING)[k % len(MATCHING)], shape=[6, 8], bands=1)
                             else:
@@ -142,6 +146,9 @@ def _cases(tier, seed, level):
                                 if sk != "cbca-bilateral":
                                     yield dict(base, mc=list(MATCHING)[(k + 1) % len(MATCHING)], shape=[5, 7], bands=2)
                                 yield dict(base, mc=list(MATCHING_BIG)[k % len(MATCHING_BIG)], shape=[10, 12], bands=1)
+
+
+CRS_MENU = ["EPSG:32631", "+proj=utm +zone=31 +ellps=GRS80 +units=m +no_defs"]
 
 
 def spaces(tier, seed):
@@ -195,8 +202,9 @@ def write_case(d, case) -> str:
         lefts[:, 1, 2] = ndv
         rights[0, ny - 2, 1] = ndv
     names = ["r", "g", "b"][:nb] if nb > 1 else None
-    geo_l = {"georef": True} if case["georef"] else {}
-    geo_r = {"georef": True, "transform": (0.5, 0.0, 358010.0, 0.0, -0.5, 4650000.0)} if case["georef"] else {}
+    geo_l = {"georef": True, "crs": case.get("crs")} if case["georef"] else {}
+    geo_r = {"georef": True, "crs": case.get("crs"),
+             "transform": (0.5, 0.0, 358010.0, 0.0, -0.5, 4650000.0)} if case["georef"] else {}
     F.write_tif(f"{d}/left.tif", lefts, "float32", descriptions=names, **geo_l)
     F.write_tif(f"{d}/right.tif", rights, "float32", descriptions=names, **geo_r)
     inp = {"left": {"img": f"{d}/left.tif"}, "right": {"img": f"{d}/right.tif"}}
